@@ -161,10 +161,28 @@ struct Th
   void *arg = nullptr;
 };
 
+// fixed-size (no heap traffic between threads: the scheduler must stay invisible to ThreadSanitizer's allocator hooks)
 struct Token
 {
-  void *cv;
-  std::set<long> eligible;
+  void *cv = nullptr;
+  int n = 0;
+  long el[64];
+  bool has(long w) const
+  {
+    for (int i = 0; i < n; ++i)
+      if (el[i] == w) return true;
+    return false;
+  }
+  void drop(long w)
+  {
+    for (int i = 0; i < n; ++i)
+      if (el[i] == w)
+      {
+        el[i] = el[n - 1];
+        --n;
+        return;
+      }
+  }
 };
 
 struct RwState
@@ -178,7 +196,8 @@ struct Global
   std::vector<std::unique_ptr<Th>> th;
   std::map<void *, int> owner; // mutex -> tid
   std::map<void *, RwState> rw;
-  std::vector<Token> tokens;
+  Token tokens[128];
+  int nTokens = 0;
   long nextWait = 1;
   std::atomic<int> ctl{0};
   vf::Options opt;
@@ -272,26 +291,32 @@ bool mutexFree(void *m) { return G->owner.find(m) == G->owner.end(); }
 
 bool hasToken(Th *t)
 {
-  for (auto &k : G->tokens)
-    if (k.cv == t->a && k.eligible.count(t->waitInst)) return true;
+  for (int i = 0; i < G->nTokens; ++i)
+    if (G->tokens[i].cv == t->a && G->tokens[i].has(t->waitInst)) return true;
   return false;
+}
+void removeTokenAt(int i)
+{
+  G->tokens[i] = G->tokens[G->nTokens - 1];
+  --G->nTokens;
 }
 void consumeToken(Th *t)
 {
-  for (size_t i = 0; i < G->tokens.size(); ++i)
-    if (G->tokens[i].cv == t->a && G->tokens[i].eligible.count(t->waitInst))
+  // the OLDEST matching token (tokens are kept in creation order except for swaps on removal; any match is admissible)
+  for (int i = 0; i < G->nTokens; ++i)
+    if (G->tokens[i].cv == t->a && G->tokens[i].has(t->waitInst))
     {
-      G->tokens.erase(G->tokens.begin() + i);
+      removeTokenAt(i);
       break;
     }
 }
 void leaveTokens(Th *t)
 {
-  for (size_t i = 0; i < G->tokens.size();)
+  for (int i = 0; i < G->nTokens;)
   {
-    G->tokens[i].eligible.erase(t->waitInst);
-    if (G->tokens[i].eligible.empty())
-      G->tokens.erase(G->tokens.begin() + i);
+    G->tokens[i].drop(t->waitInst);
+    if (G->tokens[i].n == 0)
+      removeTokenAt(i);
     else
       ++i;
   }
@@ -412,11 +437,13 @@ void markSignal(void *cv, bool all)
   }
   else
   {
-    Token k;
+    if (G->nTokens >= 128) return;
+    Token &k = G->tokens[G->nTokens];
     k.cv = cv;
+    k.n = 0;
     for (auto &u : G->th)
-      if (u->state == CvWaiting && u->a == cv && !u->notified) k.eligible.insert(u->waitInst);
-    if (!k.eligible.empty()) G->tokens.push_back(std::move(k));
+      if (u->state == CvWaiting && u->a == cv && !u->notified && k.n < 64) k.el[k.n++] = u->waitInst;
+    if (k.n > 0) ++G->nTokens;
   }
 }
 
@@ -673,6 +700,7 @@ void reset(const Options &o)
   resolve();
   // a fresh Global per execution; the old one (if any) is leaked on purpose: abandoned threads may still point into it
   G = new Global();
+  G->th.reserve(256);
   G->opt = o;
   G->rng = o.seed * 0x9E3779B97F4A7C15ULL + 0x1234567ULL;
   if (G->rng == 0) G->rng = 1;
